@@ -865,7 +865,7 @@ fn text_ops(out: &mut Vec<Op>, t: &Tgt, units: &[Unit], k: usize, fam: Fam, leve
                 out.push(Op::TEmbed {
                     t: t.clone(),
                     i: p,
-                    v: AnyV::Big(k as i64),
+                    v: AnyV::num(1000.0 + k as f64),
                     attrs: None,
                 });
             }
@@ -879,7 +879,7 @@ fn text_ops(out: &mut Vec<Op>, t: &Tgt, units: &[Unit], k: usize, fam: Fam, leve
                 out.push(Op::TEmbed {
                     t: t.clone(),
                     i: p,
-                    v: AnyV::Big(k as i64),
+                    v: AnyV::num(1000.0 + k as f64),
                     attrs: Some(ital()),
                 });
             }
